@@ -46,13 +46,14 @@ struct WrapState {
   pthread_t owner;               // only calls of this thread are faulted / counted (the peer thread uses raw calls anyway)
   std::atomic<long> in_syscall_signals{0};
   std::atomic<int> inside_blocking{0};
+  bool gate_eagain = false, eagain_ok = false; // C10: a would-block fault is only delivered to calls on a blocking socket (on a non-blocking one reporting it is correct)
 };
 static WrapState W;
 static const Fault *consume(const char *call) {
   W.calls_total++;
   if (!W.armed || !pthread_equal(pthread_self(), W.owner)) return nullptr;
   int n = ++W.count[call];
-  for (auto &f : W.plan) if (f.call == call && n >= f.k && n < f.k + f.burst) { W.faults_consumed++; W.consumed_by[string(call) + (f.kind == 1 ? ":EINTR" : f.kind == 2 ? ":EAGAIN" : ":SHORT")]++; return &f; }
+  for (auto &f : W.plan) if (f.call == call && n >= f.k && n < f.k + f.burst && !(f.kind == 2 && W.gate_eagain && !W.eagain_ok)) { W.faults_consumed++; W.consumed_by[string(call) + (f.kind == 1 ? ":EINTR" : f.kind == 2 ? ":EAGAIN" : ":SHORT")]++; return &f; }
   return nullptr;
 }
 #define ENTER W.inside_blocking++
@@ -127,7 +128,7 @@ int vn_shm_open(const char *n, int fl, mode_t m) { const Fault *f = consume("shm
 namespace {
 
 void arm(const vector<Fault> &plan) { W.plan = plan; W.count.clear(); W.armed = true; W.owner = pthread_self(); W.faults_consumed = 0; }
-void disarm() { W.armed = false; W.plan.clear(); }
+void disarm() { W.armed = false; W.plan.clear(); W.gate_eagain = false; W.eagain_ok = false; }
 
 inline unsigned char pat(unsigned stream, size_t i) { return (unsigned char)(((i * 2654435761u) >> 13) ^ (i >> 3) ^ (stream * 97u)); }
 double now_ms() { struct timespec ts; clock_gettime(CLOCK_MONOTONIC, &ts); return ts.tv_sec * 1000.0 + ts.tv_nsec / 1e6; }
@@ -413,7 +414,7 @@ Outcome run_c10(const Case &c) {
   MSock w[3];
   vector<int> raws;
   bool io_after_close = false, timed = false;
-  arm(c.plan);   // optional interruptions of poll(): a timed call must still not report timed-out before T
+  arm(c.plan); W.gate_eagain = true; W.eagain_ok = false;   // optional interruptions of poll(): a timed call must still not report timed-out before T; would-block faults only for blocking sockets
   auto getters = [&](int i, const char *after) {
     MSock &m = w[i]; if (!m.s) return;
     if ((p_socket_is_closed(m.s) == TRUE) != m.closed) fail("getter-closed", string("is_closed wrong after ") + after);
@@ -460,7 +461,7 @@ Outcome run_c10(const Case &c) {
         if (with_peer) { int rf = socket(m.fam == 6 ? AF_INET6 : AF_INET, SOCK_STREAM, 0); sockaddr_storage sa; socklen_t sl = loop_addr(m.fam, m.port, sa); if (connect(rf, (sockaddr *)&sa, sl) == 0) raws.push_back(rf); else { close(rf); with_peer = false; } struct pollfd pp = {p_socket_get_fd(m.s), POLLIN, 0}; poll(&pp, 1, 3000); }
         double t0 = now_ms();
         PSocket *r;
-        { std::unique_ptr<MustNotBlock> g(m.blocking ? nullptr : new MustNotBlock("non-blocking p_socket_accept")); r = p_socket_accept(m.s, &err); }
+        { std::unique_ptr<MustNotBlock> g(m.blocking ? nullptr : new MustNotBlock("non-blocking p_socket_accept")); W.eagain_ok = m.blocking; r = p_socket_accept(m.s, &err); W.eagain_ok = false; }
         double dt = now_ms() - t0;
         if (with_peer) {
           if (!r) fail("accept", "accept with a pending connection failed: " + errstr(err));
@@ -496,7 +497,7 @@ Outcome run_c10(const Case &c) {
         if (!with_data && m.blocking && m.timeout == 0) with_data = true; // same for a blocking receive without timeout
         if (with_data) { ssize_t n = send(m.raw_peers.back(), "0123456789", 10, MSG_NOSIGNAL); (void)n; struct pollfd pp = {p_socket_get_fd(m.s), POLLIN, 0}; poll(&pp, 1, 3000); /* data is readable before the call: no timing dependence */ }
         double t0 = now_ms(); pssize r;
-        { std::unique_ptr<MustNotBlock> g(m.blocking ? nullptr : new MustNotBlock("non-blocking p_socket_receive")); r = p_socket_receive(m.s, buf, sizeof buf, &err); }
+        { std::unique_ptr<MustNotBlock> g(m.blocking ? nullptr : new MustNotBlock("non-blocking p_socket_receive")); W.eagain_ok = m.blocking; r = p_socket_receive(m.s, buf, sizeof buf, &err); W.eagain_ok = false; }
         double dt = now_ms() - t0;
         if (with_data && r < 0 && !m.blocking && err && p_error_get_code(err) == P_ERROR_IO_WOULD_BLOCK) { // data still in flight: legitimate for a non-blocking socket; wait (raw poll) and retry once
           struct pollfd pp = {p_socket_get_fd(m.s), POLLIN, 0}; poll(&pp, 1, 2000); p_error_free(err); err = NULL; r = p_socket_receive(m.s, buf, sizeof buf, &err); }
@@ -508,7 +509,7 @@ Outcome run_c10(const Case &c) {
     } else if (cmd == "send") {
       long cb = W.calls_total;
       if (m.closed) { pssize r = p_socket_send(m.s, "x", 1, &err); expect_not_available(i, "send", r < 0, err, cb); }
-      else if (m.connected && m.tcp && m.raw_peers.size() && !m.shut_wr) { pssize r = p_socket_send(m.s, "hello", 5, &err); if (r != 5) fail("send", "send of 5 bytes on a connected socket returned " + std::to_string(r) + " " + errstr(err)); else { char b[16]; struct pollfd rp = {m.raw_peers.back(), POLLIN, 0}; poll(&rp, 1, 2000); ssize_t n = recv(m.raw_peers.back(), b, sizeof b, MSG_DONTWAIT); if (n != 5 || memcmp(b, "hello", 5)) fail("send", "peer did not receive the 5 bytes sent"); } }
+      else if (m.connected && m.tcp && m.raw_peers.size() && !m.shut_wr) { W.eagain_ok = m.blocking; pssize r = p_socket_send(m.s, "hello", 5, &err); W.eagain_ok = false; if (r != 5) fail("send", "send of 5 bytes on a connected socket returned " + std::to_string(r) + " " + errstr(err)); else { char b[16]; struct pollfd rp = {m.raw_peers.back(), POLLIN, 0}; poll(&rp, 1, 2000); ssize_t n = recv(m.raw_peers.back(), b, sizeof b, MSG_DONTWAIT); if (n != 5 || memcmp(b, "hello", 5)) fail("send", "peer did not receive the 5 bytes sent"); } }
     } else if (cmd == "shutdown") {
       long cb = W.calls_total; bool rd = arg & 1, wr = arg & 2;
       if (m.closed) { pboolean r = p_socket_shutdown(m.s, rd, wr, &err); if (!r) expect_not_available(i, "shutdown", true, err, cb); else if (W.calls_total != cb) fail("closed-io-touch", "shutdown on a closed socket touched a descriptor"); }
@@ -713,6 +714,9 @@ rc::Gen<Case> genC10() {
     // every third case: interruptions arriving 0 / 5 / 15 ms into a poll() wait
     int sel = std::get<0>(t)[0] + std::get<1>(t)[1] + (int)c.cmds.size();
     if (sel % 3 == 0) { for (int k : {1, 2, 4}) { Fault f; f.call = "poll"; f.k = k + sel % 2; f.kind = 1; f.arg = (sel % 5 == 0) ? 0 : (sel % 5 < 3 ? 5 : 15); f.burst = 1 + sel % 2; c.plan.push_back(f); } }
+    // every third case: the native call reports would-block although poll() announced readiness (another thread took the connection / the
+    // data, a checksum failure ...); delivered only to calls on blocking sockets, where the library has to go back to waiting
+    if (sel % 3 == 1) { for (const char *call : {"accept", "recv", "send"}) for (int k : {1, 3}) { Fault f; f.call = call; f.k = k + sel % 2; f.kind = 2; f.burst = 1 + (sel / 3) % 2; c.plan.push_back(f); } }
     return c; });
 }
 rc::Gen<Case> genC19() {
